@@ -102,6 +102,8 @@ def invocations(seed, n, pyver):
     for k, raw in enumerate(c16_programs.RAW_FILES):
         out.append({"kind": "single", "via": "rawfile", "raw": base64.b64encode(raw).decode("ascii"),
                     "flags": [[], ["--source"], ["--json", "--dis", "--dis-after"]][k % 3]})
+    for k, name in enumerate(c16_programs.ODD_FILE_NAMES):
+        out.append({"kind": "single", "via": "file", "program": PROGRAMS[k % len(PROGRAMS)], "relname": name, "flags": [[], ["--json"], ["--source", "--dis"]][k % 3]})
     for k, prog in enumerate(c16_programs.TEXT_HAZARDS):
         for via in ("-c", "file", "-e"):
             out.append({"kind": "single", "via": via, "program": prog, "flags": [["--json"], [], ["--no-normalize", "--json"]][(k + len(via)) % 3],
@@ -137,7 +139,7 @@ def run(shard):
     import hcommon as H
     cdm = H.import_repo()
     CodeData = cdm.CodeData
-    from code_data import _cli
+    _cli = H.lib("_cli")
     ns = dict((n, getattr(cdm, n)) for n in ("CodeData", "Instruction", "Jump", "Name", "Varname", "Constant", "Freevar", "Cellvar",
                                               "NoArg", "Args", "Function", "AdditionalLine"))
     ns.update({"nan": float("nan"), "inf": float("inf"), "Ellipsis": Ellipsis})
@@ -155,7 +157,7 @@ def run(shard):
     os.remove(srcless)
     env["PYTHONPATH"] = tmpdir + os.pathsep + env.get("PYTHONPATH", "")
     sys.path.insert(0, tmpdir)
-    launcher = "import sys; from code_data._cli import main; main()"
+    launcher = "import sys; from %s._cli import main; main()" % H.LIBNAME
 
     def dis_text(code):
         buf = io.StringIO()
@@ -207,14 +209,21 @@ def run(shard):
         mine = shard["specs"]
     fileno = [0]
 
-    def src_argv(via, program=None, module=None):
+    cwd = [None]
+
+    def src_argv(via, program=None, module=None, relname=None):
         """argv part + (source text, filename) the API side must use."""
         if via == "file":
             fileno[0] += 1
             p = os.path.join(tmpdir, "prog%d.py" % fileno[0])
+            if relname:
+                d = os.path.join(tmpdir, "dir%d" % fileno[0])
+                os.mkdir(d)
+                cwd[0] = d
+                p = os.path.join(d, relname)
             with open(p, "w", encoding="utf-8", errors="surrogatepass") as f:
                 f.write(program)
-            return [p], p
+            return ([relname], relname) if relname else ([p], p)
         if via == "-c":
             return ["-c", program.replace("\n", "\\n")], "<string>"
         if via == "-e":
@@ -282,10 +291,12 @@ def run(shard):
             sa, filename = ["-e", expr], "<string>"
             H.feature("e-shape:%d" % spec.get("eshape", 0))
         else:
-            sa, filename = src_argv(via, program, spec.get("module"))
+            cwd[0] = None
+            sa, filename = src_argv(via, program, spec.get("module"), spec.get("relname"))
         argv = sa + flags
         spec["argv_show"] = [a if len(a) < 80 else a[:77] + "..." for a in argv]
-        p = subprocess.run([sys.executable] + OFLAGS + ["-c", launcher] + argv, env=env, stdout=subprocess.PIPE, stderr=subprocess.PIPE, timeout=300)
+        p = subprocess.run([sys.executable] + OFLAGS + ["-c", launcher] + argv, env=env, stdout=subprocess.PIPE, stderr=subprocess.PIPE, timeout=300,
+                           cwd=cwd[0])
         out = p.stdout.decode("utf-8", "surrogateescape")
         H.feature("via:" + via)
         for f in flags:
